@@ -253,6 +253,9 @@ def _is_item_start(toks, k):
 def find_block(path, src, header):
     want = norm_ws(header)
     hits = [it for h, it in find_blocks(path, src) if h == want]
+    if not hits and want.startswith("trait "):
+        # `trait X: Super + ..` / `trait X<T>` - match on the trait name
+        hits = [it for h, it in find_blocks(path, src) if re.match(re.escape(want) + r"\s*[:<]", h) or re.match(re.escape(want) + r"\s+where\b", h)]
     if not hits:
         raise LostAnchor("%s: block `%s` not found" % (path, want))
     return hits
